@@ -12,7 +12,7 @@ class set_type(DataStreamProcessor):
         super(set_type, self).__init__()
         if not regex:
             name = re.escape(name)
-        self.name = re.compile(f'^(?:{name})\\Z')
+        self.name = re.compile(name)
         self.options = options
         self.resources = resources
         self.field_names = dict()
@@ -64,7 +64,7 @@ class set_type(DataStreamProcessor):
         for res in dp.descriptor['resources']:
             if self.matcher.match(res['name']):
                 for field in res['schema']['fields']:
-                    if self.name.match(field['name']):
+                    if self.name.fullmatch(field['name']):
                         field.update(self.options)
                         self.field_names.setdefault(res['name'], []).append(field['name'])
                         added = True
